@@ -110,6 +110,10 @@ def run(ctx) -> None:
     c02.check_readonly(ctx)
     check_populate(ctx)
     check_clone(ctx)
+    from . import replayform
+
+    ctx.rule("C01.replay", "bounded evaluation: after every editing operation of the pool (alone, in ordered pairs, inside and after contexts, refused ones) the solver stand-in holds exactly the flux-balance problem of the stand-in model as it stands", floor=1)
+    ctx.guard(replayform.check_replay, ctx, "C01.replay", "c01")
 
 
 # ------------------------------------------------------------------------------------ sync/atomic
